@@ -1,4 +1,5 @@
 import SdModel.Lemmas.UArr
+import SdModel.Lemmas.UMap
 
 /-!
 # C19 — unordered patching is total: saturating counts, never a panic   (array-like part)
@@ -6,7 +7,7 @@ import SdModel.Lemmas.UArr
 `UArr.apply` is a total function whose every `get_mut` / subtraction / partition arm is modelled
 (the "Sorting failure" arms are unreachable after `partition`, see `Model/UArr.lean`); the theorems give
 its exact effect for an ARBITRARY base and an ARBITRARY diff value, not only one computed from that base.
-The map-like parts are in `Props/C19Map.lean` once the map models are proved.
+The flat map-like part is below (`map_total_keys`); the recursive map-like part is `C13.apply_keys`.
 -/
 namespace C19
 open UArr
@@ -35,5 +36,49 @@ theorem arr_order_free (base base' : List α) (es es' : List (Change α))
   rw [h1, h2]
 
 example : (apply [5, 1] (.modify [.removeSingle 1, .insertSingle 3, .removeFew 2 7])).count 2 = 0 := by decide
+
+
+/-! ### flat map-like -/
+section MapLike
+open UMap
+variable {κ ν : Type} [DecidableEq κ] [DecidableEq ν]
+
+/-- keys a diff value mentions -/
+def keysOfDiff : UMap.Diff κ ν → List κ
+  | .replace r => r.map (·.1)
+  | .modify es => es.map keyOf
+
+/-- applying ANY flat map-like diff to ANY base map returns normally (`UMap.apply` is total: every `get_mut`,
+guard and `unreachable!` arm is modelled) and yields only keys that were in the base or in the diff -/
+theorem map_total_keys (base : List (κ × ν)) (d : UMap.Diff κ ν) :
+    ∀ kv ∈ UMap.apply base d, kv.1 ∈ base.map (·.1) ∨ kv.1 ∈ keysOfDiff d := by
+  intro kv hkv
+  obtain ⟨k, v⟩ := kv
+  cases d with
+  | replace r => right; exact List.mem_map_of_mem (f := (·.1)) hkv
+  | modify es =>
+    simp only [UMap.apply] at hkv
+    obtain ⟨b1, b2⟩ := collectKeyEq_spec base
+    obtain ⟨a1, a0, a2⟩ := applyRemovals_spec (collectKeyEq base) (es.filter fun e => !UMap.isInsert e) b1 b2
+    obtain ⟨i1, i2⟩ := applyInsertions_spec _ (es.filter UMap.isInsert) a1
+    obtain ⟨c, hc⟩ := mem_expand _ k v hkv
+    have hsome := mget_isSome_of_mem _ k v c hc
+    rw [i2 k] at hsome
+    cases hm : mget (applyRemovals (collectKeyEq base) (es.filter fun e => !UMap.isInsert e)) k with
+    | some vc =>
+      left
+      rw [a2 k] at hm
+      apply collectKeyEq_keys
+      cases hb : mget (collectKeyEq base) k with
+      | none => rw [hb] at hm; cases hm
+      | some _ => rfl
+    | none =>
+      right
+      rw [hm] at hsome
+      simp only [Option.isSome_map] at hsome
+      rw [insVal_filter] at hsome
+      exact insVal_some_mem es k hsome
+
+end MapLike
 
 end C19
